@@ -72,7 +72,12 @@ SnapViol(ev) ==
         pess == F.del = "P"
         \* ---- C02 ----
         dupfree == DuplicateFree(N)
-        shape == UNION { {V("C02", b) : b \in Broken(N, kind, ev.nodes[x].h, dupfree)} : x \in idx }
+        \* named deviation (known_findings.json): after a reordering, a quasi-reduced
+        \* *relation* forest can hold a node whose child lies more than one level below
+        reordered == F.ro \/ ev.l2v # [k \in 1..Len(ev.l2v) |-> k]
+        nameOf(b) == IF b = "quasi-reduced-skips-level" /\ kind.rel /\ kind.rule = "Q" /\ reordered
+                     THEN "KF:REORDER:quasi-reduced-relation:level-skipped-after-swap" ELSE b
+        shape == UNION { {V("C02", nameOf(b)) : b \in Broken(N, kind, ev.nodes[x].h, dupfree)} : x \in idx }
         views == UNION { (IF ev.nodes[x].sv = 1 THEN {} ELSE {V("C02", "full-and-sparse-views-disagree")}) \cup
                          (IF ev.nodes[x].hv = 1 THEN {} ELSE {V("C02", "hash-differs-between-views"), V("C01", "hash-differs-between-views")}) \cup
                          (IF ev.nodes[x].ff = 1 /\ ev.nodes[x].fs = 1 THEN {} ELSE {V("C02", "unique-table-does-not-find-node"), V("C01", "unique-table-does-not-find-node")}) \cup
@@ -159,8 +164,12 @@ Step ==
                 /\ fk' = IF ev.ok = 1
                          THEN ((IF ev.e = "For" THEN ev.f ELSE ev.fnew) :>
                                  [d |-> ev.d, rel |-> ev.rel = 1, lab |-> ev.lab, rng |-> ev.rng, rule |-> ev.rule,
-                                  fid |-> ev.fid, del |-> IF Has(ev, "del") THEN ev.del ELSE "O"]) @@ fk
+                                  fid |-> ev.fid, del |-> IF Has(ev, "del") THEN ev.del ELSE "O",
+                                  ro |-> FALSE]) @@ fk        \* ro: reordered at least once
                          ELSE fk
+                /\ Same(<<doms, life, status, gen, ctb, viol>>)
+         [] ev.e = "Reorder" ->
+                /\ fk' = IF ev.f \in DOMAIN fk THEN [fk EXCEPT ![ev.f].ro = TRUE] ELSE fk
                 /\ Same(<<doms, life, status, gen, ctb, viol>>)
          [] ev.e = "DFor" ->
                 /\ IF ev.ok = 1 /\ ev.f \in DOMAIN fk THEN DropForest(fk[ev.f].fid) ELSE Same(<<status, ctb>>)
